@@ -4,7 +4,7 @@
    circuits and update histories, exact integer equality). *)
 From Coq Require Import List ZArith Lia Bool.
 Import ListNotations.
-Require Import CV.Orient CV.Hpwl CV.HpwlProofs.
+Require Import CV.Orient CV.Hpwl CV.HpwlProofs CV.HpwlFoldProofs.
 Local Open Scope Z_scope.
 
 (* [F] for each of the eight orientations, all sizes and all pin offsets (also
@@ -58,6 +58,36 @@ Theorem c09_scratch_value_is_extent_sum :
   ivalue (incr_build pos nets) = fold_right (fun net a => extent (map (ipin_pos pos) net) + a) 0 nets.
 Proof. intros pos nets. cbn. apply sum_widths_map. Qed.
 
+(* [F] models over a SUBSET of the cells (IncrNetModel::xTopology/yTopology(circuit, cells)): the
+   pins of the other cells are folded into one min and one max pseudo-pin on an extra cell at
+   position 0; the folded net has exactly the min and the max of the original net (no hypothesis) *)
+Theorem c09_subset_folding_exact :
+  forall gpos subset net,
+  net_minmax (local_vec gpos subset) (topo_net gpos subset net) = net_minmax gpos net.
+Proof. exact topo_net_minmax. Qed.
+
+(* [F] ... and, nets of at most one folded pin being dropped, the value of the subset model is the
+   sum over ALL nets of the true extent of their pins (empty nets count 0; coordinates within int) *)
+Theorem c09_subset_value_exact :
+  forall gpos subset nets,
+  (forall net, In net nets -> bounded (map (ipin_pos gpos) net)) ->
+  ivalue (topology gpos subset nets) = fold_right (fun net a => true_extent gpos net + a) 0 nets.
+Proof. exact topology_value_exact. Qed.
+
+(* [F] the x model plus the y model of a circuit, over any subset of its cells, is Circuit::hpwl *)
+Theorem c09_models_add_up_to_hpwl :
+  forall cells nets subset,
+  (forall net, In net nets -> bounded (map (pin_px cells) net) /\ bounded (map (pin_py cells) net)) ->
+  ivalue (circuit_topology true cells nets subset) + ivalue (circuit_topology false cells nets subset) = hpwl cells nets.
+Proof. exact circuit_value_is_hpwl. Qed.
+
+Example c09_nonvacuous_subset :
+  let cells := [ {| hx := 0; hy := 0; hw := 2; hh := 2; ho := oN |}; {| hx := 10; hy := 4; hw := 2; hh := 2; ho := oFS |};
+                 {| hx := -5; hy := 7; hw := 1; hh := 1; ho := oN |} ] in
+  let nets := [ [ {| pc := 0; pxo := 1; pyo := 1 |}; {| pc := 1; pxo := 0; pyo := 2 |}; {| pc := 2; pxo := 0; pyo := 0 |} ]; [ {| pc := 2; pxo := 0; pyo := 0 |} ]; [] ] in
+  ivalue (circuit_topology true cells nets [1%nat]) + ivalue (circuit_topology false cells nets [1%nat]) = hpwl cells nets /\ hpwl cells nets = 21.
+Proof. vm_compute. split; reflexivity. Qed.
+
 (* non-vacuity *)
 Example c09_nonvacuous_transform :
   def_transform oFE (3, 5, 1, -2) = Some (5, 3, 7, 2) /\
@@ -74,3 +104,6 @@ Print Assumptions c09_transform_total.
 Print Assumptions c09_hpwl_is_bbox_sum.
 Print Assumptions c09_incremental_exact.
 Print Assumptions c09_scratch_value_is_extent_sum.
+Print Assumptions c09_subset_folding_exact.
+Print Assumptions c09_subset_value_exact.
+Print Assumptions c09_models_add_up_to_hpwl.
